@@ -74,6 +74,11 @@ type Enc struct {
 	imprecise        []string
 	replay           *ReplaySpec
 	quantFns         map[string]string
+	callResult       map[ssa.Instruction]TV
+	callResultPre    map[ssa.Instruction]TV
+	callIndex        map[string][]ssa.Instruction
+	siteInstrs       map[*Site][]ssa.Instruction
+	curSiteInstr     ssa.Instruction
 }
 
 type Frame struct {
